@@ -2036,7 +2036,11 @@ def replay(ctx, violation):
     rp = violation.get("replay") or {}
     tmp = ctx.tmpdir()
     try:
-        r = run_events(ctx.repo, rp["spec"], rp["events"], tmp)
+        if str(rp.get("label", "")).startswith("readonly/"):
+            # the read-only scenario carries its own end-of-run statements: run it again as a whole
+            r = run_readonly(ctx.repo, rp["spec"], tmp, int(rp["label"].split("/")[1]))
+        else:
+            r = run_events(ctx.repo, rp["spec"], rp["events"], tmp)
     finally:
         shutil.rmtree(tmp, ignore_errors=True)
     hit = [v for v in r.viol if v["signature"] == violation.get("signature")]
